@@ -291,6 +291,60 @@ func execGlob(s *ev.Shard, root string, c GlobCase) *rp.Fail {
 			return &rp.Fail{Sig: "glob-includes-non-matching", Size: size, Msg: fmt.Sprintf("tree %v links %v: only %s was edited, which pattern %q does not match, yet the task depending on that pattern ran again", c.Paths, c.Links, victim, pat)}
 		}
 	}
+	// Fourth leg: the tree changes between invocations — a file appears deep in the tree (no entry of
+	// the spokfile's own directory changes), then disappears again; every fresh expansion denotes the
+	// files that are there at that moment.
+	for step, present := range []bool{true, false} {
+		added := "src/sub/zz-added.x"
+		if present {
+			if err := writeFile(root, added, "x"); err != nil {
+				return nil // the tree has a file where this leg wants a directory: nothing to add
+			}
+		} else if err := os.Remove(filepath.Join(root, filepath.FromSlash(added))); err != nil {
+			return &rp.Fail{Sig: "harness", Msg: err.Error()}
+		}
+		entries, err := model.Walk(root)
+		if err != nil {
+			return &rp.Fail{Sig: "harness", Msg: err.Error()}
+		}
+		tree, err := parser.New(src).Parse()
+		if err != nil {
+			return &rp.Fail{Sig: "harness", Msg: err.Error()}
+		}
+		sf, err := file.New(tree, root, nopLogger{})
+		if err != nil {
+			return &rp.Fail{Sig: "harness", Msg: err.Error()}
+		}
+		if _, err := sf.Run(iostream.Null(), &recorder{count: map[string]int{}}, step == 1, tasks...); err != nil {
+			return &rp.Fail{Sig: "expansion-error", Size: size, Msg: fmt.Sprintf("tree %v links %v: run failed after %s was %s: %v", c.Paths, c.Links, added, map[bool]string{true: "added", false: "removed"}[present], err)}
+		}
+		for _, pat := range c.Patterns {
+			var files []string
+			seen := map[string]bool{}
+			for _, abs := range sf.Globs[pat] {
+				if st, err := os.Stat(abs); err != nil || st.IsDir() {
+					continue
+				}
+				rel, err := filepath.Rel(root, abs)
+				if err != nil {
+					continue
+				}
+				if rel = filepath.ToSlash(rel); !seen[rel] {
+					seen[rel] = true
+					files = append(files, rel)
+				}
+			}
+			sort.Strings(files)
+			want := model.GlobFiles(entries, pat)
+			if strings.Join(files, "\x00") != strings.Join(want, "\x00") {
+				sig := "glob-includes-non-matching"
+				if len(minus(want, files)) > 0 {
+					sig = "glob-omits-matching-file"
+				}
+				return &rp.Fail{Sig: sig, Size: size, Msg: fmt.Sprintf("tree %v links %v, after several invocations %s was %s: pattern %q denotes %v but spok expanded it to %v", c.Paths, c.Links, added, map[bool]string{true: "added", false: "removed"}[present], pat, want, files)}
+			}
+		}
+	}
 	return nil
 }
 
